@@ -350,7 +350,7 @@ pub fn gen_c03(rng: &mut Rng, tier: Tier) -> C03Plan {
         Flavour::StdPtype { fmt, .. } if rng.chance(1, 3) => Some(Flavour::StdPlus {
             umv_unlimited: false,
             layers: None,
-            hdr: Some(PlusHdr { fmt: *fmt, umv: 1 + rng.below(2) as u8, pcf: None, par: 1, epar: (0, 0), modes: if rng.bool() { 0b0_1000_0000 } else { 0 }, sss: 0, type_code: None, mpp_bits: 0, cpm: None }),
+            hdr: Some(PlusHdr { fmt: *fmt, umv: 1 + rng.below(2) as u8, pcf: None, par: 1, epar: (0, 0), modes: if rng.bool() { 0b0_1000_0000 } else { 0 }, sss: 0, type_code: None, mpp_bits: 0, cpm: None, ufep0: false }),
         }),
         _ => None,
     };
